@@ -1104,6 +1104,14 @@ def corpus():
     b4 = dict(b, stiffs=[], forces_skin=[[0.3 * b['a'], 0.4 * b['b'], 0., 0., 1.]])
     b4['alt_cuts'] = []
     out.append(b4)                                       # skin force
+    free = {f + e + d: 1. for f in 'uvw' for e in ('1t', '1r', '2t', '2r') for d in 'xy'}
+    b5 = dict(b, flags=free, m=3, n=3, forces_skin=[],
+              stiffs=[dict(base, type='b1', base=False, flange=True, give_bf=True, fstack=[45, 0], fplyt=5e-4)])
+    b5['alt_cuts'] = [b['cuts'][0]]
+    out.append(b5)                                       # 1-D blade flange with an off-axis ply: mass and stiffness not PSD
+    b6 = dict(b, flags=free, m=3, n=2, forces_skin=[], stiffs=[dict(base, type='t', base=True, flange=True, mb=2, nb=3, mf=3, nf=2)])
+    b6['alt_cuts'] = [b['cuts'][0]]
+    out.append(b6)                                       # T stiffener: base integrated outside its strip
     return out
 
 
@@ -1197,7 +1205,7 @@ def correspondence(ctx):
     for c in cases:
         if describe(c, dist):
             ctx.nontrivial.add(json.dumps(c, sort_keys=True, default=str)[:400])
-    for c in cases[5:8] + cases[45:48]:
+    for c in cases[7:10] + cases[47:50]:
         if c['kind'] == 'asm':
             ctx.sample(dict(kind='asm', mn=[(p['m'], p['n'], p['lean_model']) for p in c['panels']], conns=c['conns']))
         else:
